@@ -183,6 +183,59 @@ def run(chk):
                     if not ok:
                         oracle_bad.append(dict(info, op="grad of log_probability w.r.t. y", expected=want_gy.tolist(), observed=gy.tolist()))
                 distinct.add((kname, scls.__name__, rep))
+    # ---- (2b) noise levels given per point, some of them EXACTLY zero (exact observations): d logp / d diag_i = (alpha_i^2 - (S^-1)_ii) / 2,
+    # and the derivative of the predictive variance at the training inputs with respect to the prediction noise is 1, also at 0
+    from tinygp.solvers import DirectSolver as _DS15, QuasisepSolver as _QS15
+    xz = np.sort(rng.uniform(0, 4, size=6))
+    yz = rng.normal(size=6)
+    dz = np.array([0.0, 0.3, 0.0, 0.2, 0.0, 0.4])
+    Kz = KF["matern32"](xz[:, None] - xz[None, :], dict(sigma=1.2, scale=0.9))
+    Sz = Kz + np.diag(dz)
+    az = np.linalg.solve(Sz, yz)
+    want_dz = 0.5 * (az ** 2 - np.diag(np.linalg.inv(Sz)))
+    for scls_ in (_DS15, _QS15):
+        def lpz(dd, scls_=scls_):
+            return GaussianProcess(qs.Matern32(jnp.asarray(0.9), jnp.asarray(1.2)), jnp.asarray(xz), diag=dd, solver=scls_).log_probability(jnp.asarray(yz))
+        for mode_, op_ in (("grad", jax.grad), ("jacfwd", jax.jacfwd)):
+            n_eval += 1
+            gz = np.asarray(op_(lpz)(jnp.asarray(dz)))
+            okz, _ = close(gz, want_dz, 1e-7)
+            if not okz:
+                oracle_bad.append(dict(op=f"{mode_} of log_probability w.r.t. per-point noise levels, some exactly zero", solver=scls_.__name__, x=xz.tolist(), y=yz.tolist(),
+                                       diag=dz.tolist(), expected=want_dz.tolist(), observed=gz.tolist()))
+
+        def pvz(e, scls_=scls_):
+            g_ = GaussianProcess(qs.Matern32(jnp.asarray(0.9), jnp.asarray(1.2)), jnp.asarray(xz), diag=jnp.asarray(0.3), solver=scls_)
+            return g_.condition(jnp.asarray(yz), diag=e).gp.variance
+        for e0 in (0.0, 0.25):
+            n_eval += 1
+            jz = np.asarray(jax.jacfwd(pvz)(jnp.asarray(e0)))
+            if not np.allclose(jz, 1.0, atol=1e-9):
+                oracle_bad.append(dict(op="jacfwd of the conditional variance w.r.t. the (scalar) prediction noise", solver=scls_.__name__, at=e0, expected=[1.0] * 6, observed=jz.tolist()))
+    # ---- (2c) time scales much shorter than the data span (|dt| / scale of several hundred): the pointwise kernel value is then ~0 and its
+    # derivatives are tiny but FINITE; reverse and forward mode agree with each other and with the quasiseparable solver
+    xl_ = jnp.asarray(np.linspace(0.0, 5.0, 6))
+    yl_ = jnp.asarray(np.sin(np.arange(6.0)))
+    xtl_ = jnp.asarray([0.3, 4.9])
+    for sc_ in (0.01, 0.004):
+        gl = {}
+        for sname_, scls_ in (("direct", _DS15), ("quasisep", _QS15)):
+            def lpl(s_, scls_=scls_):
+                return GaussianProcess(qs.Matern32(s_, jnp.asarray(1.3)), xl_, diag=jnp.asarray(0.1), solver=scls_).log_probability(yl_)
+
+            def pvl(s_, scls_=scls_):
+                return jnp.sum(GaussianProcess(qs.Matern32(s_, jnp.asarray(1.3)), xl_, diag=jnp.asarray(0.1), solver=scls_).predict(yl_, xtl_, return_var=True)[1])
+            for fname_, f_ in (("log_probability", lpl), ("predictive variance at new points", pvl)):
+                n_eval += 1
+                gr_, gf_ = float(jax.grad(f_)(jnp.asarray(sc_))), float(jax.jacfwd(f_)(jnp.asarray(sc_)))
+                gl[(sname_, fname_)] = gr_
+                if not (np.isfinite(gr_) and np.isfinite(gf_) and abs(gr_ - gf_) <= 1e-9 * max(1.0, abs(gf_))):
+                    oracle_bad.append(dict(op=f"grad vs jacfwd of {fname_} w.r.t. a scale much shorter than the data span", solver=sname_, scale=sc_,
+                                           x=np.asarray(xl_).tolist(), expected=gf_, observed=gr_))
+        for fname_ in ("log_probability",):
+            a_, b_ = gl[("direct", fname_)], gl[("quasisep", fname_)]
+            if np.isfinite(a_) and np.isfinite(b_) and abs(a_ - b_) > 1e-9 * max(1.0, abs(a_)):
+                oracle_bad.append(dict(op=f"grad of {fname_} w.r.t. a short scale, dense vs quasiseparable solver", scale=sc_, expected=a_, observed=b_))
     # ---- (3) derivatives with respect to coordinates stay finite at coincident points
     for kname, kern, dim in (("ExpSquared/L2 2-D", kernels.ExpSquared(jnp.asarray(1.1)), 2),
                              ("Matern52/L2 3-D", kernels.Matern52(jnp.asarray(0.9), distance=kernels.distance.L2Distance()), 3),
